@@ -68,6 +68,7 @@ def corruption_lines(kind, rng_word):
         "duplicate-equ-directive": (["de_%s:" % w, ".equ de_%s = 5" % w, ".db 1"], True, False),
         "duplicate-macro": ([".macro DM_%s" % w, ".db 1", ".endm", ".macro DM_%s" % w, ".db 2", ".endm", "DM_%s" % w], True, False),
         "set-no-name": ([".set"], True, False),
+        "export-local-label": ([".scope", "xl_%s:" % w, ".db 1", ".export xl_%s" % w, ".ends"], True, False),
         "set-on-a-label": (["sl_%s:" % w, ".set sl_%s = 5" % w, ".db 1"], True, False),
         # errors that end the process from inside the tokenizer / macro expander
         "token-too-long": (["x" * 2000], True, False),
@@ -88,7 +89,7 @@ KINDS = ["unknown-mnemonic", "undefined-symbol", "undefined-symbol-dw", "out-of-
          "stray-endm", "unterminated-macro", "unterminated-comment", "unterminated-repeat",
          "define-self", "define-mutual", "define-chain-129", "define-chain-stmt", "macro-recursive",
          "div-zero", "div-zero-after-add", "div-zero-before-add", "mod-zero-after-mul", "div-zero-in-parens", "div-zero-via-equ",
-         "duplicate-define", "duplicate-equ-directive", "duplicate-macro", "set-no-name", "set-on-a-label", "equ-no-name", "token-too-long", "string-too-long",
+         "duplicate-define", "duplicate-equ-directive", "duplicate-macro", "set-no-name", "export-local-label", "set-on-a-label", "equ-no-name", "token-too-long", "string-too-long",
          "db-trailing-comma", "db-empty", "define-empty", "operand-drop", "operand-extra", "punct-swap", "truncate", "number-extreme", "hash-no-value"]
 LINE_KINDS = ("operand-drop", "operand-extra", "punct-swap", "truncate", "number-extreme", "hash-no-value")
 NUM_LIT = re.compile(r"(?<![\w.$])(0x[0-9a-fA-F]+|\d+)\b")
@@ -96,8 +97,8 @@ EXTREMES = [-1, -129, -32769, 5, 7, 0x81, 255, 256, 0x1001, 65535, 65536, 0x1234
 PLACES = ["top", "in-macro", "in-include", "in-repeat", "in-if", "in-nested-if", "in-else", "in-ifdef", "in-deep-if"]
 STRUCT_PLACES = ["top", "in-include", "at-end"]
 
-DIRECTED = [(k, p) for k in KINDS[:46] for p in PLACES if not corruption_lines(k, "x")[2]] + \
-           [(k, p) for k in KINDS[:46] for p in STRUCT_PLACES if corruption_lines(k, "x")[2]]
+DIRECTED = [(k, p) for k in KINDS[:47] for p in PLACES if not corruption_lines(k, "x")[2]] + \
+           [(k, p) for k in KINDS[:47] for p in STRUCT_PLACES if corruption_lines(k, "x")[2]]
 
 ERR_LINE = re.compile(r"Error")
 FAIL_DIAG = re.compile(r"Error|Cannot open|Couldn't open|Unknown |Failed|bailing|not supported|No input|Usage")
